@@ -189,7 +189,9 @@ class KGLambda:
     def __init__(self, fn, args=None, provide_klong=False, wildcard=False):
         self.fn = fn
         params = args or safe_inspect(fn)
-        self.args = [reserved_fn_symbol_map[x] for x in reserved_fn_args if x in params]
+        # arguments are positional: a callable with n of the parameters x, y, z takes the first n arguments
+        n_params = sum(1 for x in reserved_fn_args if x in params)
+        self.args = [reserved_fn_symbol_map[x] for x in reserved_fn_args[:n_params]]
         self._provide_klong = provide_klong or 'klong' in params
         self._wildcard = wildcard
 
